@@ -10,21 +10,21 @@ import (
 // Config steers a generator. All case lists are fixed-length functions of
 // (seed, case index); nothing here depends on time.
 type Config struct {
-	Profile   string // mixed | structural | buckets | cursor | big | overwrite
-	Txs       int
-	OpsPerTx  int
-	KeySpace  int
-	PageSize  int
-	Opts      OpenOpts
-	Reopen    float64                     // probability of a reopen after a transaction
-	Rollback  float64                     // probability that a write transaction rolls back
-	OptSched  func(r *rand.Rand) OpenOpts // option schedule for reopens (C13); nil = same options
-	ROProbe   float64                     // probability of a read-only-transaction probe block
-	MaxDepth  int                         // bucket nesting
-	NoBigKeys bool
-	Managed   float64 // probability that a write transaction runs inside DB.Update (body returns nil, an error, or panics)
+	Profile     string // mixed | structural | buckets | cursor | big | overwrite
+	Txs         int
+	OpsPerTx    int
+	KeySpace    int
+	PageSize    int
+	Opts        OpenOpts
+	Reopen      float64                     // probability of a reopen after a transaction
+	Rollback    float64                     // probability that a write transaction rolls back
+	OptSched    func(r *rand.Rand) OpenOpts // option schedule for reopens (C13); nil = same options
+	ROProbe     float64                     // probability of a read-only-transaction probe block
+	MaxDepth    int                         // bucket nesting
+	NoBigKeys   bool
+	Managed     float64 // probability that a write transaction runs inside DB.Update (body returns nil, an error, or panics)
 	HeldReaders float64 // probability (per write transaction) that a read transaction is opened and kept across the following ones; needs a large initial map (set by Generate)
-	FailCommit float64 // probability that the commit of an (unmanaged) write transaction gets one injected I/O failure
+	FailCommit  float64 // probability that the commit of an (unmanaged) write transaction gets one injected I/O failure
 }
 
 func (c *Config) defaults() {
